@@ -9,12 +9,20 @@ Driver ops for the Prover model (C02 / C03).
                                loop, everything joined by " # ":
       -> <result line> # <cycle>;<state>;<tape before>;<tape after>;<times> # ...
          (tapes in the `Display` format of `Tape`; applications made before a panic are listed too)
+  checkapp <q> <budget> <before> <after> | prog
+                               the VERIFIED validator `checkApp` (BB/Model/Validate.lean, theorems
+                               BB/Props/C03.lean) on one reported application; the two tapes in the
+                               `Display` format with '_' for ' '
+      -> ok cycles=<n> steps=<n> canon=<bool> | undefinedOnWay <q>,<c> | spinoutOnWay | overBudget
+         | notCanon | BAD-TAPE
 -/
 import BB.Model.Instrs
 import BB.Model.Tape
 import BB.Model.Machine
 import BB.Model.Rules
 import BB.Model.Prover
+import BB.Model.Validate
+import BB.Lemmas.Canon
 
 namespace BB.Driver.OpsProver
 
@@ -54,6 +62,21 @@ def handle (op : String) (args : List String) (text : String) : Option String :=
       | .ok p =>
         let (r, apps) := runProverTrace p lim.toNat!
         " # ".intercalate (showPRes r :: (apps.take n.toNat!).map showApp)
+  | "checkapp", [q, budget, before, after] =>
+    some <| match Prog.fromStr text with
+      | .error e => showErr e
+      | .ok p =>
+        let un (s : String) : String := String.ofList (s.toList.map fun c => if c == '_' then ' ' else c)
+        match Tape.parse (un before), Tape.parse (un after) with
+        | some b, some a =>
+          let canon := Span.canonB b.lspan && Span.canonB b.rspan
+          match checkApp p q.toNat! b a budget.toNat! with
+          | .ok cycles steps => s!"ok cycles={cycles} steps={steps} canon={canon}"
+          | .undefinedOnWay (s, c) => s!"undefinedOnWay {s},{c}"
+          | .spinoutOnWay => "spinoutOnWay"
+          | .overBudget => "overBudget"
+          | .notCanon => "notCanon"
+        | _, _ => "BAD-TAPE"
   | _, _ => none
 
 end BB.Driver.OpsProver
